@@ -33,7 +33,7 @@ fn gen_pth(rng: &mut Rng, n: usize) -> Vec<u8> {
 }
 fn gen_smx(rng: &mut Rng, nobj: usize, ncp: usize, dirty: bool) -> Vec<u8> {
     let mut v = b"LFSSMX".to_vec(); v.extend(rng.bytes(6)); v.extend(if dirty { rng.bytes(4) } else { vec![0; 4] });
-    let tl = rng.below(33) as usize; let mut t = crate::layout::stable_text(rng, tl); t.resize(32, 0); if dirty && tl < 30 { t[31] = b'x'; } v.extend(t);
+    let tl = rng.below(33) as usize; let mut t = crate::layout::ascii_text(rng, tl); t.resize(32, 0); if dirty && tl < 30 { t[31] = b'x'; } v.extend(t);
     v.extend(rng.bytes(3)); v.extend(if dirty { rng.bytes(9) } else { vec![0; 9] });
     v.extend((nobj as i32).to_le_bytes());
     for _ in 0..nobj {
